@@ -23,6 +23,7 @@ def _parse(argv):
     p.add_argument("--digests", default=None, help="comma separated run indices: print their digests as JSON")
     p.add_argument("--runs", type=int, default=None)
     p.add_argument("--budget", type=float, default=None)
+    p.add_argument("--dump-digests", default=None, help="write {run index: trace digest} of the whole batch to this file")
     p.add_argument("--no-selftest", action="store_true")
     p.add_argument("--no-evidence", action="store_true")
     p.add_argument("--show", type=int, default=None, help="print scenario and trace of run index")
@@ -213,6 +214,10 @@ def main(argv=None):
     for k, tb in rep.errors[:5]:
         harness_errors.append("run %d raised in harness: %s" % (k, tb.strip().splitlines()[-1]))
         print("HARNESS_ERROR run=%d\n%s" % (k, tb), file=sys.stderr)
+
+    if args.dump_digests:
+        with open(args.dump_digests, "w") as f:
+            json.dump({str(k): v for k, v in sorted(rep.digests.items())}, f)
 
     known_entries = findings.load()
     new, known_hits = [], {}
